@@ -359,7 +359,10 @@ def vi_command(draw):
     if k == 33:
         return cnt + "."
     if k == 34:
-        return cnt + "@" + draw(st.sampled_from(["a", "b", "x", "\\a", "@", "z"]))
+        if draw(st.integers(0, 3)) == 0:
+            # many copies of a long register / of the last change: more than the 4 KiB input queue holds
+            return draw(st.sampled_from(["30", "500", "9999"])) + draw(st.sampled_from(["@q", "@q", ".", "@a"]))
+        return cnt + "@" + draw(st.sampled_from(["a", "b", "x", "\\a", "@", "z", "q"]))
     if k == 35:
         return cnt + draw(st.sampled_from([ctl("e"), ctl("y"), ctl("d"), ctl("u"), ctl("f"), ctl("b"), "z\n", "z.", "z-", "z>", "z<", "ze", "zf"]))
     if k == 36:
